@@ -16,10 +16,15 @@ def VERDICT(name, mode, renames, units):
 HARNESSES = [
     VERDICT("verdict_tls12", 12, {"matrixssl/matrixssl.c": ["matrixValidateCertsExt"]}, ["matrixssl/matrixssl.c", "core/src/corelib_strings.c"]),
     VERDICT("verdict_tls13", 13, {"matrixssl/matrixssl.c": ["matrixValidateCertsExt"]}, ["matrixssl/matrixssl.c", "core/src/corelib_strings.c"]),
+    # proof of possession cannot be skipped: the TLS 1.3 transition gate (same harness as C06.d)
+    dict(name="pop_order13", dir="C06", src="hs_state13.c", checks=[],
+         functions=["tls13CheckHsState"], sources=["matrixssl/tls13Decode.c"],
+         assumptions=["pop_order13: all 256 hsState values x all 256 message types x both roles; oracle = RFC 8446 Appendix A transition table (Finished only in WAIT_FINISHED, CertificateVerify only directly after Certificate)"],
+         cases=[dict(name="all", defs={})]),
 ]
 PROPERTY = dict(level='model_checking',
-    claim='The certificate step of the handshake (TLS<=1.2 parseCertificate; TLS 1.3 tls13ValidateCertChain) succeeds only if validation returned >= 0 with every certificate PS_CERT_AUTH_PASS and a trust-anchor list configured, or a registered callback returned 0 / ALLOW_ANON; the same oracle text is asserted for both protocol families.',
+    claim='The certificate step of the handshake (TLS<=1.2 parseCertificate; TLS 1.3 tls13ValidateCertChain) succeeds only if validation returned >= 0 with every certificate PS_CERT_AUTH_PASS and a trust-anchor list configured, or a registered callback returned 0 / ALLOW_ANON; the same oracle text is asserted for both protocol families; in TLS 1.3 Finished is accepted only in WAIT_FINISHED, i.e. never while a CertificateVerify is outstanding.',
     bounds='chains of 1-2 certificates; validation outcome arbitrary (10 status values x arbitrary flags x arbitrary return code)',
-    outside='proof-of-possession checks (ServerKeyExchange / CertificateVerify signatures) are not yet encoded',
+    outside='the signature checks of ServerKeyExchange / CertificateVerify themselves and the state a parsed Certificate message leaves (WAIT_CV vs WAIT_FINISHED for an empty list) are not encoded',
     explanation='The certificate step of the handshake (TLS<=1.2 parseCertificate; TLS 1.3 tls13ValidateCertChain) succeeds only if validation returned >= 0 with every certificate PS_CERT_AUTH_PASS and a trust-anchor list configured, or a registered callback returned 0 / ALLOW_ANON; the same oracle text is asserted for both protocol families.',
     assumptions=[])
